@@ -330,6 +330,7 @@ type c15Case struct {
 	ops   []string
 	srv   string // test mode: "" = server inside the harness process, "proc" = server in a separate process
 	stub  bool   // live mode: the plugin acknowledges the shutdown request and keeps running (Kill has to force it)
+	crash bool   // dead mode: the plugin was SIGKILLed (its listener was never closed: the socket file is still there)
 }
 
 func (c *c15Case) line() string {
@@ -337,6 +338,9 @@ func (c *c15Case) line() string {
 	l := fmt.Sprintf("C15 launch=%s hs=1 ops=%s proto=%s", launch, strings.Join(c.ops, ","), c.proto)
 	if c.srv != "" {
 		l += " srv=" + c.srv
+	}
+	if c.crash {
+		l += " crash=1"
 	}
 	if c.stub {
 		l += " stub=1"
@@ -444,6 +448,10 @@ func runC15(c *c15Case, idx int) (impl, pred string) {
 		rc = launcher.ReattachConfig()
 		targetPid = rc.Pid
 		if c.mode == "dead" {
+			if c.crash {
+				syscall.Kill(targetPid, syscall.SIGKILL)
+				waitDead(targetPid, 3*time.Second)
+			}
 			launcher.Kill()
 			waitDead(targetPid, 3*time.Second)
 		}
@@ -699,7 +707,7 @@ func init() {
 		if replay != "" {
 			_, m := kvLine(replay)
 			mode := map[string]string{"reattach": "live", "reattach-dead": "dead", "reattach-test": "test"}[m["launch"]]
-			c := &c15Case{proto: m["proto"], mode: mode, ops: splitComma(m["ops"]), srv: m["srv"], stub: m["stub"] == "1"}
+			c := &c15Case{proto: m["proto"], mode: mode, ops: splitComma(m["ops"]), srv: m["srv"], stub: m["stub"] == "1", crash: m["crash"] == "1"}
 			impl, pred := runC15(c, 0)
 			o.emit(c.line(), impl, pred)
 			return
@@ -725,6 +733,9 @@ func init() {
 		}
 		// a plugin that ignores the shutdown request: Kill on the reattached client has to terminate it by force
 		for _, proto := range []string{"netrpc", "grpc"} {
+			// the target crashed (SIGKILL): nothing listens although its socket file was never removed
+			cases = append(cases, &c15Case{proto: proto, mode: "dead", crash: true, ops: []string{"S", "C", "K"}},
+				&c15Case{proto: proto, mode: "dead", crash: true, ops: []string{"C", "S", "K", "S"}})
 			cases = append(cases, &c15Case{proto: proto, mode: "live", stub: true, ops: []string{"S", "K"}},
 				&c15Case{proto: proto, mode: "live", stub: true, ops: []string{"C", "K"}})
 		}
